@@ -250,18 +250,18 @@ func (h *Handler) SendMessage(ctx context.Context, s *xmpp.Session, r xml.TokenR
 //
 // SendMessageElement is safe for concurrent use by multiple goroutines.
 func (h *Handler) SendMessageElement(ctx context.Context, s *xmpp.Session, payload xml.TokenReader, msg stanza.Message) error {
-	if h.sent == nil {
-		h.m.Lock()
-		h.sent = make(map[string]chan struct{})
-		h.m.Unlock()
-	}
-
 	if msg.ID == "" {
 		msg.ID = attr.RandomID()
 	}
 
-	c := make(chan struct{})
+	// The channel has room for the one notification it can ever get (the entry
+	// is removed from the map before it is signaled) so that the handler never
+	// has to wait for us, whether we are still listening or not.
+	c := make(chan struct{}, 1)
 	h.m.Lock()
+	if h.sent == nil {
+		h.sent = make(map[string]chan struct{})
+	}
 	h.sent[msg.ID] = c
 	h.m.Unlock()
 
@@ -271,6 +271,9 @@ func (h *Handler) SendMessageElement(ctx context.Context, s *xmpp.Session, paylo
 	}
 	err := s.SendElement(ctx, r, msg.StartElement())
 	if err != nil {
+		h.m.Lock()
+		delete(h.sent, msg.ID)
+		h.m.Unlock()
 		return err
 	}
 
@@ -281,7 +284,6 @@ func (h *Handler) SendMessageElement(ctx context.Context, s *xmpp.Session, paylo
 		h.m.Lock()
 		delete(h.sent, msg.ID)
 		h.m.Unlock()
-		close(c)
 		return ctx.Err()
 	}
 }
